@@ -40,14 +40,26 @@ pub struct GraphCase {
     pub rep: &'static str,
     pub edges: Vec<(usize, usize, usize)>,
     pub queries: Vec<Query>,
+    /// large graphs: observe labels/paths only for these nodes, no adjacency line, edges on `EE` lines
+    pub sample: Option<Vec<usize>>,
 }
 
 impl GraphCase {
     pub fn to_case(&self, family: &str) -> Case {
         let mut c = Case::new(family);
         c.op(format!("G {} {}", self.n, self.rep));
-        for (u, v, w) in &self.edges {
-            c.op(format!("E {u} {v} {w}"));
+        match &self.sample {
+            None => {
+                for (u, v, w) in &self.edges {
+                    c.op(format!("E {u} {v} {w}"));
+                }
+            }
+            Some(sm) => {
+                c.op(format!("S {}", join(sm.iter(), " ")).trim_end().to_string());
+                for chunk in self.edges.chunks(400) {
+                    c.op(format!("EE {}", join(chunk.iter().map(|e| format!("{}:{}:{}", e.0, e.1, e.2)), " ")));
+                }
+            }
         }
         for q in &self.queries {
             match q {
@@ -140,7 +152,7 @@ fn random_graph(rng: &mut Rng, nmax: usize) -> GraphCase {
     }
     anchor(rng, n, &mut edges, wmax);
     let nq = 1 + rng.below(5) as usize;
-    GraphCase { n, rep: *rng.pick(&REPS), edges, queries: random_queries(rng, n, nq) }
+    GraphCase { n, rep: *rng.pick(&REPS), edges, queries: random_queries(rng, n, nq), sample: None }
 }
 
 /// the shape of the property's why_tests_cant: a node is first reached by an expensive edge,
@@ -218,7 +230,7 @@ fn lowered_label(rng: &mut Rng) -> GraphCase {
         queries.extend(random_queries(rng, n, 2));
     }
     rng.shuffle(&mut queries);
-    GraphCase { n, rep: *rng.pick(&REPS), edges: e2, queries }
+    GraphCase { n, rep: *rng.pick(&REPS), edges: e2, queries, sample: None }
 }
 
 /// edges i -> j (i < j) with convex weights: the route through all intermediate nodes is the
@@ -244,7 +256,7 @@ fn convex(rng: &mut Rng) -> GraphCase {
     let mut queries = vec![Query::Uni(ids[0], ids[n - 1])];
     queries.push(Query::O2m(ids[0], vec![ids[n - 1], ids[n / 2]]));
     queries.extend(random_queries(rng, n, 2));
-    GraphCase { n, rep: *rng.pick(&REPS), edges, queries }
+    GraphCase { n, rep: *rng.pick(&REPS), edges, queries, sample: None }
 }
 
 /// many consecutive queries on one object: reachable after unreachable, shrinking and growing
@@ -275,7 +287,7 @@ fn ties(rng: &mut Rng) -> GraphCase {
         edges.push((rng.below(n as u64) as usize, rng.below(n as u64) as usize, rng.below(2) as usize));
     }
     anchor(rng, n, &mut edges, 1);
-    GraphCase { n, rep: *rng.pick(&REPS), edges, queries: random_queries(rng, n, 3) }
+    GraphCase { n, rep: *rng.pick(&REPS), edges, queries: random_queries(rng, n, 3), sample: None }
 }
 
 /// exhaustive tiny graphs: all edge subsets over `n` nodes with weights from `ws`
@@ -304,7 +316,7 @@ fn exhaustive_small(n: usize, ws: &[usize], max_edges: usize, out: &mut Vec<Grap
                 queries.push(Query::Uni(0, t));
             }
             queries.push(Query::O2m(0, (1..n).collect()));
-            out.push(GraphCase { n, rep: "static", edges: cur.clone(), queries });
+            out.push(GraphCase { n, rep: "static", edges: cur.clone(), queries, sample: None });
         }
         if cur.len() == max_edges {
             return;
@@ -318,6 +330,136 @@ fn exhaustive_small(n: usize, ws: &[usize], max_edges: usize, out: &mut Vec<Grap
         }
     }
     rec(&slots, 0, ws, &mut Vec::new(), max_edges, n, out);
+}
+
+/// large graphs for the reuse clause: the FIRST query on each search object records more than
+/// `min_big` nodes, later queries on the same objects start elsewhere (a separate small component,
+/// or deep inside the big one) and reach only a few nodes.  Nodes that only the earlier query
+/// reached are targets of the later queries and part of the observed sample (<= 16 nodes).
+fn large_reuse(rng: &mut Rng, min_big: usize, max_big: usize) -> GraphCase {
+    let big = min_big + rng.below((max_big - min_big + 1) as u64) as usize;
+    let nb = 3 + rng.below(4) as usize; // small component B: a chain
+    let b_first = rng.chance(1, 2); // ids of B before or after the big component
+    let (a0, b0) = if b_first { (nb, 0) } else { (0, big) };
+    let n = big + nb;
+    let a = |i: usize| a0 + i;
+    let b = |i: usize| b0 + i;
+    let wmax = *rng.pick(&[1i64, 3, 10]);
+    let w = |rng: &mut Rng| rng.range(0, wmax) as usize;
+    let mut edges = Vec::new();
+    // s1 = start of the big query, far = a node whose settling needs (almost) everything recorded,
+    // s2 = a start inside A that reaches only a few nodes, near = reachable from s2, early = not reachable from s2
+    let (s1, far, s2, near, early): (usize, usize, usize, usize, Vec<usize>);
+    match rng.below(3) {
+        0 => {
+            // star: centre a(0), leaves a(1..big); a few leaf -> leaf edges
+            for i in 1..big {
+                let wt = 1 + w(rng);
+                edges.push((a(0), a(i), wt));
+            }
+            let l1 = 1 + rng.below((big - 2) as u64) as usize;
+            let l2 = l1 + 1;
+            edges.push((a(l1), a(l2), 0));
+            s1 = a(0);
+            far = a(big - 1);
+            s2 = a(l1);
+            near = a(l2);
+            early = vec![a(0), a(1), a(big - 1), a(big / 2)];
+        }
+        1 => {
+            // broom: a backbone chain (ascending or descending ids) whose nodes each carry leaves
+            let len = 150 + rng.below(250) as usize;
+            let k = big / len; // block size: backbone node + (k-1) leaves
+            let asc = rng.chance(1, 2);
+            let blocks = big / k;
+            let bb = |j: usize| if asc { a(j * k) } else { a((blocks - 1 - j) * k) };
+            for j in 0..blocks {
+                if j + 1 < blocks {
+                    edges.push((bb(j), bb(j + 1), w(rng)));
+                    if rng.chance(1, 20) {
+                        edges.push((bb(j), bb(j + 1), w(rng) + 1)); // parallel
+                    }
+                }
+                if j + 2 < blocks && rng.chance(1, 15) {
+                    edges.push((bb(j), bb(j + 2), 2 * wmax as usize + 1)); // never better than the two hops
+                }
+                for l in 1..k {
+                    edges.push((bb(j), bb(j) + l, w(rng)));
+                }
+            }
+            // the nodes of A beyond the last block hang off the first backbone node
+            for i in blocks * k..big {
+                edges.push((bb(0), a(i), 1 + w(rng)));
+            }
+            s1 = bb(0);
+            far = bb(blocks - 1) + (k - 1);
+            s2 = bb(blocks - 2);
+            near = bb(blocks - 1) + 1;
+            early = vec![bb(0), bb(0) + 1, bb(blocks / 2), bb(1) + (k - 1)];
+        }
+        _ => {
+            // grid, row-major, right/down edges; from the top-left corner
+            let wd = 40 + rng.below(60) as usize;
+            let ht = big / wd;
+            let cells = wd * ht;
+            let id = |r: usize, c: usize| a(r * wd + c);
+            for r in 0..ht {
+                for c in 0..wd {
+                    if c + 1 < wd {
+                        edges.push((id(r, c), id(r, c + 1), w(rng)));
+                    }
+                    if r + 1 < ht {
+                        edges.push((id(r, c), id(r + 1, c), w(rng)));
+                    }
+                }
+            }
+            // the nodes of A beyond the grid hang off the corner as leaves
+            for i in cells..big {
+                edges.push((id(0, 0), a(i), 1 + w(rng)));
+            }
+            s1 = id(0, 0);
+            far = id(ht - 1, wd - 1);
+            s2 = id(ht - 2, wd - 2);
+            near = id(ht - 1, wd - 1);
+            early = vec![id(0, 0), id(0, 1), id(ht / 2, wd / 2), id(ht - 1, 0)];
+        }
+    }
+    // component B: chain b(0) -> ... -> b(nb-1); sometimes A reaches B (never the other way round)
+    for i in 0..nb - 1 {
+        edges.push((b(i), b(i + 1), w(rng)));
+    }
+    if rng.chance(1, 2) {
+        edges.push((s1, b(0), 1 + w(rng)));
+    }
+    let mut e2 = edges.clone();
+    anchor(rng, n, &mut e2, 1);
+    // the anchor may only add an edge touching node n-1; drop it again if it connects B to A
+    if e2.len() != edges.len() {
+        e2.truncate(edges.len());
+    }
+    rng.shuffle(&mut e2);
+    let sb = b(0);
+    let bl = b(nb - 1);
+    let e0 = early[0];
+    let e1 = early[1];
+    let queries = vec![
+        Query::O2m(s1, vec![far, bl.min(n - 1), e1]),
+        Query::O2m(sb, vec![bl, e0, far]),
+        Query::O2m(sb, vec![bl]),
+        Query::Uni(s1, far),
+        Query::Uni(sb, e0),
+        Query::Uni(sb, bl),
+        Query::O2m(s2, vec![near, e1]),
+        Query::Uni(s2, e1),
+        Query::Uni(s2, near),
+        Query::O2m(sb, vec![e1, b(1)]),
+    ];
+    let mut sample = early.clone();
+    sample.extend([s1, far, s2, near, sb, bl, b(1)]);
+    sample.sort();
+    sample.dedup();
+    sample.truncate(16);
+    GraphCase { n, rep: if rng.chance(1, 2) { "static" } else { "dyn" }, edges: e2, queries, sample: Some(sample) }
 }
 
 /// random cell.  `overlap`: some boundary nodes are incoming AND outgoing; `isolated`: boundary
@@ -392,6 +534,7 @@ pub fn generate_mode(rng: &mut Rng, tier: Tier, cases: &mut Vec<Case>, mode: Mod
         rep: "static",
         edges: vec![(0, 1, 1), (0, 2, 10), (1, 2, 1), (2, 3, 1), (0, 3, 5)],
         queries: vec![Query::Uni(0, 3), Query::O2m(0, vec![3, 2]), Query::Uni(0, 2)],
+        sample: None,
     };
     cases.push(d2.to_case("witness-d2"));
     // D3 (parent on decrease): path to 2 was [2]
@@ -400,6 +543,7 @@ pub fn generate_mode(rng: &mut Rng, tier: Tier, cases: &mut Vec<Case>, mode: Mod
         rep: "static",
         edges: vec![(0, 1, 1), (0, 2, 10), (1, 2, 1)],
         queries: vec![Query::Uni(0, 2), Query::O2m(0, vec![2])],
+        sample: None,
     };
     cases.push(d3.to_case("witness-d3"));
     for rep in ["dyn", "dynins"] {
@@ -455,6 +599,26 @@ pub fn generate_mode(rng: &mut Rng, tier: Tier, cases: &mut Vec<Case>, mode: Mod
     for i in 0..n_cells {
         cases.push(random_cell(rng, i % 4 == 1 || i % 4 == 3, i % 4 >= 2));
     }
+    // ---- large graphs, reuse after a search that recorded thousands of nodes
+    match tier {
+        Tier::Quick => {
+            for _ in 0..5 {
+                cases.push(large_reuse(rng, 4500, 8000).to_case("large-reuse"));
+            }
+            cases.push(large_reuse(rng, 12000, 20000).to_case("large-reuse"));
+        }
+        Tier::Thorough => {
+            for _ in 0..30 {
+                cases.push(large_reuse(rng, 4500, 12000).to_case("large-reuse"));
+            }
+            for _ in 0..7 {
+                cases.push(large_reuse(rng, 12000, 20000).to_case("large-reuse"));
+            }
+            for _ in 0..3 {
+                cases.push(large_reuse(rng, 66000, 72000).to_case("large-reuse"));
+            }
+        }
+    }
 }
 
 // ------------------------------------------------------------------------------------------------
@@ -471,16 +635,23 @@ fn path_str(p: Option<Vec<usize>>) -> String {
     }
 }
 
-fn run_queries<G: Graph<usize>>(g: &G, n: usize, queries: &[Query], mode: Mode, obs: &mut Vec<String>) {
-    // adjacency as the searches will see it (free: edge order inside a node's range)
+fn run_queries<G: Graph<usize>>(g: &G, n: usize, queries: &[Query], sample: &Option<Vec<usize>>, mode: Mode, obs: &mut Vec<String>) {
+    // adjacency as the searches will see it (free: edge order inside a node's range); not for large graphs
     let nn = g.number_of_nodes();
-    let mut adj = Vec::new();
-    for u in 0..n.min(nn) {
-        for e in g.edge_range(u) {
-            adj.push(format!("{u}:{}:{}", g.target(e), g.data(e)));
+    if sample.is_none() {
+        let mut adj = Vec::new();
+        for u in 0..n.min(nn) {
+            for e in g.edge_range(u) {
+                adj.push(format!("{u}:{}:{}", g.target(e), g.data(e)));
+            }
         }
+        obs.push(format!("F adj {}", join(adj.iter(), " ")).trim_end().to_string());
     }
-    obs.push(format!("F adj {}", join(adj.iter(), " ")).trim_end().to_string());
+    // the nodes whose label / path is observed after every query
+    let watch: Vec<usize> = match sample {
+        Some(sm) => sm.clone(),
+        None => (0..n).collect(),
+    };
     let mut uni = UnidirectionalDijkstra::new();
     let mut o2m = OneToManyDijkstra::new();
     for (k, q) in queries.iter().enumerate() {
@@ -496,7 +667,7 @@ fn run_queries<G: Graph<usize>>(g: &G, n: usize, queries: &[Query], mode: Mode, 
                     Mode::C09 => {
                         let p = uni.retrieve_node_path(*t);
                         obs.push(format!("D {k} uni dist={} path={}", umax(d), if p.is_some() { "some" } else { "none" }));
-                        obs.push(format!("F {k} paths {}", join((0..n).map(|v| path_str(uni.retrieve_node_path(v))), " ")));
+                        obs.push(format!("F {k} paths {}", join(watch.iter().map(|v| path_str(uni.retrieve_node_path(*v))), " ")));
                     }
                 }
             }
@@ -509,12 +680,12 @@ fn run_queries<G: Graph<usize>>(g: &G, n: usize, queries: &[Query], mode: Mode, 
                         let ok2 = fresh.run(g, *s, ts);
                         let dist2 = join(ts.iter().map(|t| umax(fresh.distance(*t))), ",");
                         obs.push(format!("D {k} o2m reuse={}:{dist} fresh={}:{dist2}", ok as u8, ok2 as u8));
-                        obs.push(format!("F {k} labels {}", join((0..n).map(|v| umax(o2m.distance(v))), ",")));
+                        obs.push(format!("F {k} labels {}", join(watch.iter().map(|v| umax(o2m.distance(*v))), ",")));
                     }
                     Mode::C09 => {
                         obs.push(format!("D {k} o2m ok={} T={dist}", ok as u8));
-                        obs.push(format!("F {k} labels {}", join((0..n).map(|v| umax(o2m.distance(v))), ",")));
-                        obs.push(format!("F {k} paths {}", join((0..n).map(|v| path_str(o2m.retrieve_node_path(v))), " ")));
+                        obs.push(format!("F {k} labels {}", join(watch.iter().map(|v| umax(o2m.distance(*v))), ",")));
+                        obs.push(format!("F {k} paths {}", join(watch.iter().map(|v| path_str(o2m.retrieve_node_path(*v))), " ")));
                     }
                 }
             }
@@ -528,6 +699,7 @@ pub fn execute_mode(c: &Case, obs: &mut Vec<String>, mode: Mode) {
     let mut edges: Vec<(usize, usize, usize)> = Vec::new();
     let mut queries = Vec::new();
     let mut is_cell = false;
+    let mut sample: Option<Vec<usize>> = None;
     let (mut inc, mut out): (Vec<usize>, Vec<usize>) = (Vec::new(), Vec::new());
     for l in &c.ops {
         let t: Vec<&str> = l.split_whitespace().collect();
@@ -541,6 +713,13 @@ pub fn execute_mode(c: &Case, obs: &mut Vec<String>, mode: Mode) {
             "IN" => inc = (1..t.len()).map(num).collect(),
             "OUT" => out = (1..t.len()).map(num).collect(),
             "E" => edges.push((num(1), num(2), num(3))),
+            "EE" => {
+                for it in &t[1..] {
+                    let p: Vec<usize> = it.split(':').map(|x| x.parse().unwrap()).collect();
+                    edges.push((p[0], p[1], p[2]));
+                }
+            }
+            "S" => sample = Some((1..t.len()).map(num).collect()),
             "Q" => match t[1] {
                 "uni" => queries.push(Query::Uni(num(2), num(3))),
                 _ => queries.push(Query::O2m(num(2), (3..t.len()).map(num).collect())),
@@ -567,18 +746,18 @@ pub fn execute_mode(c: &Case, obs: &mut Vec<String>, mode: Mode) {
     match rep.as_str() {
         "static" => {
             let g = StaticGraph::new(input);
-            run_queries(&g, n, &queries, mode, obs);
+            run_queries(&g, n, &queries, &sample, mode, obs);
         }
         "dyn" => {
             let g = DynamicGraph::new(n, input);
-            run_queries(&g, n, &queries, mode, obs);
+            run_queries(&g, n, &queries, &sample, mode, obs);
         }
         _ => {
             let mut g: DynamicGraph<usize> = DynamicGraph::new(n, Vec::<InputEdge<usize>>::new());
             for e in &edges {
                 g.insert_edge(e.0, e.1, e.2);
             }
-            run_queries(&g, n, &queries, mode, obs);
+            run_queries(&g, n, &queries, &sample, mode, obs);
         }
     }
 }
